@@ -1,4 +1,5 @@
 """C03 — lexing and parsing are total: never panic, hang or misplace an error (DESIGN.md 6/C03)."""
+import re
 from ..engine import Property, Failure
 from ..known import open_ids
 from ..gen import invalid
@@ -199,6 +200,9 @@ class C03(Property):
             # error raised before any real token was consumed: the text holds no token at all
             if not [t for t in invalid.tokens_of(d.get('text', '').lstrip('﻿')) if t.strip() and not t.startswith('#')] or _only_comments(d.get('text', '')):
                 return 'C03-F1'
+        if 'C03-F2' in ids and f.signature.startswith(('error_offset_inside_character', 'error_offset_outside_input')) and '\r\n' in d.get('text', '') and \
+                re.search(r'''[fF][rR]?['"]|[rR][fF]['"]''', d.get('text', '')):
+            return 'C03-F2'
         return None
 
 
